@@ -34,7 +34,7 @@ def special_cases(rng, count):
         while perm == vals:
             rng.shuffle(perm)
         head = rng.choice(["p", "--k=", "x:"])
-        k = rng.randrange(9)
+        k = rng.randrange(11)
         if k == 0:
             variants, defs = [("fb", [("seq", [("lit", l, None), ("lit", x, None)]), ("seq", [("lit", l, None), ("lit", y, None)])])], []
         elif k == 1:
@@ -59,6 +59,20 @@ def special_cases(rng, count):
             variants, defs = [("seq", [w, ("lit", x, None)]), ("seq", [w, ("lit", y, None)])], []
         elif k == 7:
             variants, defs = [("seq", [("lit", "sub", None), ("alt", [("seq", [("lit", l, "d"), ("lit", x, None)]), ("seq", [("lit", l, "d"), ("lit", y, None)])])])], []
+        elif k == 9:
+            # one within-word language spelled in two ways that keep the order of the values: through a definition / flat
+            vs = vals if len(vals) == 3 else vals + ["zz"]
+            variants = [("seq", [("sub", [("lit", head, None), ("alt", [("lit", v, None) for v in vs])]), ("lit", x, None)]),
+                        ("seq", [("sub", [("lit", head, None), ("alt", [("lit", vs[0], None), ("nt", "N1")])]), ("lit", y, None)])]
+            defs = [("N1", None, ("alt", [("lit", v, None) for v in vs[1:]]))]
+        elif k == 10:
+            # ... with extra grouping / a repeated value
+            vs = vals if len(vals) == 3 else vals + ["zz"]
+            second = rng.choice([("alt", [("lit", vs[0], None), ("alt", [("lit", v, None) for v in vs[1:]])]),
+                                 ("alt", [("lit", v, None) for v in vs] + [("lit", vs[0], None)])])
+            variants = [("seq", [("sub", [("lit", head, None), ("alt", [("lit", v, None) for v in vs])]), ("lit", x, None)]),
+                        ("seq", [("sub", [("lit", head, None), second]), ("lit", y, None)])]
+            defs = []
         else:
             variants, defs = [("fb", [("seq", [("opt", ("lit", x, None)), ("lit", l, None)]), ("seq", [("lit", l, None), ("lit", y, None)]), ("lit", l, None)])], []
         out.append((f"special{k}:{i}", variants, defs))
@@ -88,13 +102,17 @@ def classify(ans, spec):
         return "same-literal-two-levels-not-in-grammar"
     if a[0] == "W" and b[0] == "W":
         h = a[1].split(".")[0]
+        # the pinned code interns within-word automata by the structure of the minimised automaton (state numbers,
+        # order of the interned items): two pool entries with the same structure are a new defect, whatever the grammar
+        if spec is not None and h in spec.get("same_structure", ()):
+            return "identical-subwords-interned-apart"
         if spec is not None and spec["impl_count"].get(h, 0) <= spec["spellings"].get(h, 0):
             return "equal-language-subwords-interned-apart"
         return "identical-subwords-interned-apart"
     return "two-readings:" + a[0] + b[0]
 
 
-def spec_info(trees, sub_hashes):
+def spec_info(trees, sub_hashes, sub_dumps=None):
     """per case: the conflicting key pairs of the automaton of the grammar's meaning, and per within-word language
     the number of structurally different spellings in the grammar"""
     reqs = [f"spec {sh} {tree}" for sh, tree in trees]
@@ -104,10 +122,16 @@ def spec_info(trees, sub_hashes):
         reqs2.append("conflicts " + a[3:].split(" ## ")[0] if a.startswith("ok ") else "conflicts x")
     ans2 = core.driver_parallel(reqs2)
     out = []
-    for a, c, hs in zip(ans, ans2, sub_hashes):
+    sub_dumps = sub_dumps or [[] for _ in sub_hashes]
+    for a, c, hs, dumps in zip(ans, ans2, sub_hashes, sub_dumps):
         if not a.startswith("ok ") or not c.startswith("ok"):
             out.append(None)
             continue
+        seen, same = {}, set()
+        for h, d in zip(hs, dumps):
+            if d in seen.setdefault(h, set()):
+                same.add(h)
+            seen[h].add(d)
         parts = a[3:].split(" ## ")
         keys = parts[2].split() if len(parts) > 2 else []
         structs = parts[3].split() if len(parts) > 3 else []
@@ -118,7 +142,7 @@ def spec_info(trees, sub_hashes):
         for h in hs:
             impl_count[h] = impl_count.get(h, 0) + 1
         pairs = {tuple(x.split(",")) for x in c[3:].split()}
-        out.append({"pairs": pairs, "spellings": spellings, "impl_count": impl_count})
+        out.append({"pairs": pairs, "spellings": spellings, "impl_count": impl_count, "same_structure": same})
     return out
 
 
@@ -174,7 +198,8 @@ def analyse(ctx, parts):
     conflict = set()
     bad_ids = sorted({cid for (cid, _, _, _), a in zip(plan, ans) if a.startswith("conflict")})
     specs = dict(zip(bad_ids, spec_info([(recs[c]["shell"] if "shell" in recs[c] else texts[c.rsplit("/", 1)[0]][0], recs[c]["tree"]) for c in bad_ids],
-                                        [subhs.get(c, []) for c in bad_ids])))
+                                        [subhs.get(c, []) for c in bad_ids],
+                                        [[json.dumps(sub, sort_keys=True) for sub in recs[c].get("subdfas", [])] for c in bad_ids])))
     for (cid, which, text, sh), a in zip(plan, ans):
         ctx.evaluations += 1
         if a == "det":
